@@ -502,7 +502,41 @@ class D06(Extra):
 class D07(Extra):
     RULE = ('dense-time iff/xor-free formulas (predicates over arithmetic terms) x signals: at every tick of the domain a strictly positive value reported by the '
             'dense offline monitor (and, for past-time formulas, by the dense online monitor) requires satZ = true and a strictly negative one satZ = false, '
-            'satZ being the Boolean dense-time semantics of DenseSat.v')
+            'satZ being the Boolean dense-time semantics of DenseSat.v; 30% of the random formulas with some until turned into the sugar unless / unless[a,b], 25% of the formulas '
+            'with bounded operators (and a stream of unless[a,b] whose left operand holds exactly on the window) written with explicit time units (ms / s, on both ends or one end) '
+            'under the default unit s')
+
+    @staticmethod
+    def unit_text(f, seed):
+        """the text of f with every bound (ticks of 0.25 s) written with explicit units, the default unit staying s"""
+        import random
+        from harness.c08 import dec
+        rng = random.Random(seed)
+
+        def bound(b, e):
+            style = rng.choice(['both', 'both', 'end', 'begin'])
+            ub, ue = rng.choice(['ms', 'ms', 's']), rng.choice(['ms', 'ms', 's'])
+            if style == 'end':
+                ub = ue
+            if style == 'begin':
+                ue = ub
+            ns = int(dense.SCALE * 10 ** 9)
+            return '[%s%s%s%s%s]' % (dec(b * ns, ub), ub if style != 'end' else '', rng.choice([',', ':']), dec(e * ns, ue), ue if style != 'begin' else '')
+        return fml.to_text(f, bound)
+
+    def spec_text(self, c):
+        return self.unit_text(c['f'], c['units']) if c.get('units') is not None and (fml.ops(c['f']) & (fml.TUN | fml.TBIN)) else text(c['f'])
+
+    def features(self, c):
+        fs = Extra.features(self, c)
+        if self.spec_text(c) != text(c['f']):
+            fs.append('dense:bounds_with_explicit_units')
+            if 'unlesst' in fml.ops(c['f']):
+                fs.append('dense:unlesst_with_explicit_units')
+        return fs
+
+    def describe(self, c):
+        return dict(Extra.describe(self, c), written_as=self.spec_text(c))
 
     def gen(self, rng, tier):
         out = []
@@ -510,17 +544,37 @@ class D07(Extra):
         P = ('pred', 'geq', ('var', 0), ('const', 1))
         Q = ('pred', 'leq', ('var', 1), ('const', 2))
         base = [('untilt', 2, 4, P, Q), ('untilt', 0, 4, P, Q), ('until', P, Q), ('since', P, Q), ('sincet', 2, 4, P, Q), ('alwt', 0, 4, ('evt', 0, 2, P)),
-                ('implies', P, ('evt', 2, 4, Q)), ('not', ('oncet', 0, 2, P)), ('hist', ('or', P, Q)), ('ev', ('and', P, ('not', Q)))]
+                ('implies', P, ('evt', 2, 4, Q)), ('not', ('oncet', 0, 2, P)), ('hist', ('or', P, Q)), ('ev', ('and', P, ('not', Q))),
+                ('unless', P, Q), ('unlesst', 2, 4, P, Q), ('unlesst', 0, 4, P, Q), ('not', ('unlesst', 0, 2, P, Q))]
         items = [(f, 2) for f in base for _ in range(3)]
         for _ in range(n):
             nv = rng.choice([1, 2, 2])
             f = gen_formula(rng, nv, rng.choice([1, 2, 2, 3]), iffxor=False)
+            if rng.random() < 0.3:
+                f = fml.add_unless(rng, f)       # the sugar unless / unless[a,b]
             if fml.size(f) > 22 or not fml.fvars(f):
                 continue
             items.append((f, nv))
-        for (f, nv) in items:
+        for k, (f, nv) in enumerate(items):
             nv = need_vars(f, nv)
-            out.append({'f': f, 'nv': nv, 'sigs': gen_sigs(rng, nv, minn=1), 'n': 0})
+            c = {'f': f, 'nv': nv, 'sigs': gen_sigs(rng, nv, minn=1), 'n': 0}
+            if (fml.ops(f) & (fml.TUN | fml.TBIN)) and (rng.random() < 0.25 or (k < len(base) * 3 and k % 3 == 0)):
+                c['units'] = rng.randrange(10 ** 6)
+            out.append(c)
+        # unless[a,b] = always[0,b] or until[a,b], with explicit units: the left operand holds on [0,b] and a little longer (or only at the start),
+        # the right one never / late
+        X, Y = ('pred', 'geq', ('var', 0), ('const', 0)), ('pred', 'geq', ('var', 1), ('const', 0))
+        for _ in range(n // 5):
+            a = rng.choice([0, 0, 2, 4])
+            b = a + rng.choice([2, 4])
+            d = rng.choice([2, b + 2, b + 2, b + 4])
+            end = max(d, b) + rng.choice([8, 12, 20])
+            p = [[0, rng.randint(1, 4)], [d, -rng.randint(1, 4)], [end, -1]]
+            q = [[0, -rng.randint(1, 3)], [end, -1]] if rng.random() < 0.6 else [[0, -rng.randint(1, 3)], [d + 2, rng.randint(1, 3)], [end, 1]]
+            f = ('unlesst', a, b, X, Y)
+            if rng.random() < 0.3:
+                f = rng.choice([('not', f), ('or', f, Y), ('alwt', 0, 2, f)])
+            out.append({'f': f, 'nv': 2, 'sigs': [p, q], 'n': 0, 'units': rng.randrange(10 ** 6)})
         # bounded until / since with a positive lower bound: the left operand holds on [t, t+a], dips, and the right operand
         # becomes true inside [t+a, t+b] only after the dip (mirror image for since): the verdict is 'violated'
         X, Y = ('pred', 'geq', ('var', 0), ('const', 0)), ('pred', 'geq', ('var', 1), ('const', 0))
@@ -549,9 +603,10 @@ class D07(Extra):
         return ['(satz %s (%s) %d %d)' % (fml.to_sx(c['f']), sigs_sx(c['sigs']), t0, max(tmax, t0) + 8)]
 
     def impl_cases(self, c):
-        out = [offline_case(c['f'], c['sigs'], c['nv'])]
+        kw = {'spec': 'out = ' + self.spec_text(c)}
+        out = [offline_case(c['f'], c['sigs'], c['nv'], **kw)]
         if not fml.has_future(c['f']):
-            out.append(online_case(c['f'], c['sigs'], c['nv']))
+            out.append(online_case(c['f'], c['sigs'], c['nv'], **kw))
         return out
 
     def judge(self, c, mlines, ires):
@@ -562,7 +617,7 @@ class D07(Extra):
             return 'dropped', None
         t0, tmax, tmin = domain(c['f'], c['sigs'])
         sat = {t0 + i: (b == '1') for i, b in enumerate(m['SATZ'])}
-        det = {'spec': 'out = ' + text(c['f']), 'signals_ticks': c['sigs'], 'tick_s': dense.SCALE,
+        det = {'spec': 'out = ' + self.spec_text(c), 'signals_ticks': c['sigs'], 'tick_s': dense.SCALE,
                'expected': {'source': 'satZ (DenseSat.v): Boolean dense-time satisfaction per tick from the start of the domain', 'values': [int(sat[t]) for t in sorted(sat)]}}
         for k, i in enumerate(ires):
             mon = 'dense-offline' if k == 0 else 'dense-online'
